@@ -103,6 +103,27 @@ pub fn trial_opts(net: &mut Net, b: u64, kind: &'static str, writer: usize, read
     net.sim.run_calls(&mut [&mut put], 60_000);
     let put_done = put.done_ns().unwrap_or(net.sim.now_ns());
     let acks = ackers(net, writer, &st.target, log0, put_done);
+    // every fourth mutable trial: the writer REWRITES the item under the same seq with another value (both puts return Ok): the
+    // lookup must return what was written last
+    let mut st = st;
+    let mut rewritten = false;
+    if b % 4 == 2 && kind.starts_with("mutable") && put.done() {
+        if let PutRequestSpecific::PutMutable(a) = &st.request {
+            let sk = crypto::keypair(7);
+            let val = format!("rewritten value {b}").into_bytes();
+            let item = MutableItem::new(&sk, &val, a.seq, a.salt.as_deref());
+            let expect = Item::from_mutable(&item);
+            let req = PutRequestSpecific::PutMutable(v::PutMutableRequestArguments::from(item, None));
+            let mut put2 = net.sim.call_put(writer, req.clone(), None, "rewrite");
+            net.sim.poke(writer);
+            net.sim.run_calls(&mut [&mut put2], 60_000);
+            if matches!(put2.outcome(), Some(Outcome::PutOk(_))) {
+                st.request = req;
+                st.expect = expect;
+                rewritten = true;
+            }
+        }
+    }
     // every third announce: a SECOND announcer for the same info_hash, on the writer's IP address (another client behind the
     // same NAT / on the same host, other port; for signed announcements: another signer) announces after the first one.
     // The first announcer's record must still be found.
@@ -175,7 +196,7 @@ pub fn trial_opts(net: &mut Net, b: u64, kind: &'static str, writer: usize, read
         "live_ackers_other_than_reader": acks.iter().filter(|a| alive.contains(a) && **a != raddr).count(),
         "crashed": crash.iter().map(|&c| net.sim.nodes[c].addr.to_string()).collect::<Vec<_>>(),
         "reader_knows_live": knows_live, "get_done": done, "found": found(&get, &st.expect), "items": get.items.len(),
-        "concurrent": concurrent, "second_announcer": second, "delay_ms": delay_ms, "panicked": net.sim.nodes.iter().any(|n| n.panicked)})
+        "concurrent": concurrent, "second_announcer": second, "rewritten": rewritten, "delay_ms": delay_ms, "panicked": net.sim.nodes.iter().any(|n| n.panicked)})
 }
 
 pub fn run(args: &Args) -> i32 {
